@@ -21,7 +21,7 @@ rm -f "$PKG/zz_seed_demo_test.go"
 S="not-run"
 if [ "$SUITE" = "suite" ]; then
   git apply "$SD/patch.diff"
-  go test -vet=off -count=1 -timeout 25m ./... > "$WT/suite.log" 2>&1
+  go test -vet=off -count=1 -timeout 90m ./... > "$WT/suite.log" 2>&1
   cp "$WT/suite.log" "$SD/suite_confirm.log"
   # tests other than the 8 baseline failpoint failures that failed: wall-clock tests (TestDB_Open_InitialMmapSize: "a 128 MiB
   # commit within 5 s") fail on a loaded machine with and without any change, so each is re-run alone up to 5 times
